@@ -6,7 +6,9 @@ use crate::engine::{CheckResult, Ctx, Tier};
 pub mod c01;
 pub mod c02;
 pub mod c03;
+pub mod c04;
 pub mod c05;
+pub mod c07;
 pub mod c11;
 pub mod c13;
 pub mod c14;
@@ -30,7 +32,7 @@ pub struct PropDef {
 }
 
 pub fn all() -> Vec<PropDef> {
-    vec![c01::def(), c02::def(), c03::def(), c05::def(), c11::def(), c13::def(), c14::def(), c15::def(), c16::def()]
+    vec![c01::def(), c02::def(), c03::def(), c04::def(), c05::def(), c07::def(), c11::def(), c13::def(), c14::def(), c15::def(), c16::def()]
 }
 
 pub fn find(id: &str) -> Option<PropDef> {
